@@ -122,8 +122,8 @@ impl<TA, M, OA, N> TrackStore<TA, M, OA, N> {
                 self.shape(),
                 self.num_shards == old(self).num_shards,
                 wf(old(self).tracks()),
-                removed_prefix(self.tracks(), old(self).tracks(), tracks@, it.index@ as int),
-                fetched_prefix(res@, old(self).tracks(), tracks@, it.index@ as int),
+                removed_prefix(self.tracks(), old(self).tracks(), tracks@, it.index@ as int), //# C09/store.fetch_tracks.exactly_the_listed_ids_leave_the_store_and_the_rest_is_unchanged
+                fetched_prefix(res@, old(self).tracks(), tracks@, it.index@ as int), //# C09/store.fetch_tracks.each_stored_listed_track_is_returned_once_and_unchanged
 //@GHOST before=`res.push(t);`
                 proof {
                     let r2 = res@.push(t);
